@@ -206,6 +206,30 @@ func runC16(c *Ctx) {
 		}
 	}
 	burst("first")
+	// the caller's ?timeout= (how long the API server is prepared to wait) is no part of a review's well-formedness: whatever it
+	// says — long, zero, negative, a nanosecond, not a duration at all — a well-formed pod review is answered 200 with its own
+	// uid and the library's verdict
+	for ti, tv := range []string{"30s", "10s", "1s", "1ms", "1ns", "0s", "0", "-5s", "bogus", "5", "1h", "1.5s", "999999h"} {
+		for k := 0; k < 6; k++ {
+			rc := cases[(ti+k)%clients][(ti*7+k)%len(cases[0])]
+			resp, err := http.Post(ts.URL+"?timeout="+tv, "application/json", bytes.NewReader(rc.body()))
+			c.Eval(1)
+			c.Tag("timeoutParam." + tv)
+			in := J{"uid": rc.uid, "namespace": rc.ns, "operation": rc.op, "timeoutQuery": tv}
+			if err != nil {
+				c.Violate(Finding{Desc: "well-formed review with ?timeout=" + tv + ": no HTTP answer: " + err.Error(), Key: "timeout-param-no-answer", Input: in})
+				continue
+			}
+			b, _ := io.ReadAll(resp.Body)
+			resp.Body.Close()
+			var rv admissionv1.AdmissionReview
+			if resp.StatusCode != 200 || json.Unmarshal(b, &rv) != nil || rv.Response == nil || string(rv.Response.UID) != rc.uid || rv.Response.Allowed != rc.wantAllowed {
+				in["pod"] = rc.pod
+				c.Violate(Finding{Desc: fmt.Sprintf("well-formed review sent with ?timeout=%s is not answered with 200, its own uid and the library's verdict (allowed=%v): status %d, body %s", tv, rc.wantAllowed, resp.StatusCode, trunc(string(b), 300)),
+					Key: "timeout-param-changes-answer", Input: in})
+			}
+		}
+	}
 	c.Hist["uidMismatches"] = uidMismatch
 	c.Hist["verdictMismatches"] = verdictMismatch
 	c.Sample(J{"review": json.RawMessage(cases[0][0].body())})
